@@ -246,7 +246,7 @@ class CoherentFeedForwardLoop:
         # Update circuit breaker
         if result.success and not result.blocked:
             self._record_success()
-        elif result.blocked:
+        elif result.blocked and result.success:
             # Blocks are intentional, not failures
             pass
         else:
